@@ -40,9 +40,16 @@ pub enum Ev {
     DefineF,
     UndefF,
     IfdefF,
+    If2,
+    IfT,
+    IfTeq2,
+    IfTeq3,
+    ElifTeq3,
+    ElifT,
+    IfNotT,
 }
 
-pub const EVENTS: [Ev; 30] = [
+pub const EVENTS: [Ev; 37] = [
     Ev::If0,
     Ev::If1,
     Ev::IfD,
@@ -73,6 +80,13 @@ pub const EVENTS: [Ev; 30] = [
     Ev::DefineF,
     Ev::UndefF,
     Ev::IfdefF,
+    Ev::If2,
+    Ev::IfT,
+    Ev::IfTeq2,
+    Ev::IfTeq3,
+    Ev::ElifTeq3,
+    Ev::ElifT,
+    Ev::IfNotT,
 ];
 
 #[derive(Clone, Debug, PartialEq, Eq, Hash)]
@@ -128,14 +142,21 @@ fn text_of(ev: Ev, k: usize) -> String {
         Ev::DefineF => "#define F(x) ((x) + 1)".into(),
         Ev::UndefF => "#undef F".into(),
         Ev::IfdefF => "#ifdef F".into(),
+        Ev::If2 => "#if 2".into(),
+        Ev::IfT => "#if T".into(),
+        Ev::IfTeq2 => "#if T == 2".into(),
+        Ev::IfTeq3 => "#if T == 3".into(),
+        Ev::ElifTeq3 => "#elif T == 3".into(),
+        Ev::ElifT => "#elif T".into(),
+        Ev::IfNotT => "#if !T".into(),
     }
 }
 
 fn cond_of(ev: Ev, st: &RefState) -> Option<bool> {
-    // truth of an opening / elif condition (D = 1, Z = 0, U undefined)
+    // truth of an opening / elif condition (D = 1, Z = 0, T = 2, U undefined)
     Some(match ev {
-        Ev::If0 | Ev::Elif0 | Ev::IfZ | Ev::ElifZ | Ev::IfNotD | Ev::IfdefU | Ev::IfndefD => false,
-        Ev::If1 | Ev::Elif1 | Ev::IfD | Ev::ElifD | Ev::IfDeq1 | Ev::IfdefD | Ev::IfndefU | Ev::ElifNotZ | Ev::IfNotNotD | Ev::IfZeqZ => true,
+        Ev::If0 | Ev::Elif0 | Ev::IfZ | Ev::ElifZ | Ev::IfNotD | Ev::IfdefU | Ev::IfndefD | Ev::IfTeq3 | Ev::ElifTeq3 | Ev::IfNotT => false,
+        Ev::If1 | Ev::Elif1 | Ev::IfD | Ev::ElifD | Ev::IfDeq1 | Ev::IfdefD | Ev::IfndefU | Ev::ElifNotZ | Ev::IfNotNotD | Ev::IfZeqZ | Ev::If2 | Ev::IfT | Ev::IfTeq2 | Ev::ElifT => true,
         Ev::IfdefM => st.m_defined,
         Ev::IfdefF => st.f_defined,
         Ev::IfndefM => !st.m_defined,
@@ -144,10 +165,10 @@ fn cond_of(ev: Ev, st: &RefState) -> Option<bool> {
 }
 
 fn is_open(ev: Ev) -> bool {
-    matches!(ev, Ev::If0 | Ev::If1 | Ev::IfD | Ev::IfZ | Ev::IfNotD | Ev::IfDeq1 | Ev::IfdefD | Ev::IfdefU | Ev::IfndefD | Ev::IfndefU | Ev::IfdefM | Ev::IfndefM | Ev::IfNotNotD | Ev::IfZeqZ | Ev::IfdefF)
+    matches!(ev, Ev::If0 | Ev::If1 | Ev::IfD | Ev::IfZ | Ev::IfNotD | Ev::IfDeq1 | Ev::IfdefD | Ev::IfdefU | Ev::IfndefD | Ev::IfndefU | Ev::IfdefM | Ev::IfndefM | Ev::IfNotNotD | Ev::IfZeqZ | Ev::IfdefF | Ev::If2 | Ev::IfT | Ev::IfTeq2 | Ev::IfTeq3 | Ev::IfNotT)
 }
 fn is_elif(ev: Ev) -> bool {
-    matches!(ev, Ev::Elif0 | Ev::Elif1 | Ev::ElifD | Ev::ElifNotZ | Ev::ElifZ)
+    matches!(ev, Ev::Elif0 | Ev::Elif1 | Ev::ElifD | Ev::ElifNotZ | Ev::ElifZ | Ev::ElifTeq3 | Ev::ElifT)
 }
 
 fn enabled(ev: Ev, st: &RefState, max_depth: usize) -> bool {
@@ -264,8 +285,8 @@ fn run_history(hist: &[Ev], incdir: &str) -> StepResult {
         expect_active.push(st.active());
     }
     src.push_str("char zend;\n");
-    let show = |s: &str| format!("--- source (options -DD=1 -DZ=0)\n{}", s);
-    let (out, tr) = drv::compile_src_probe(src.as_bytes(), &["-O0", "-DD=1", "-DZ=0", "-I", incdir], &["M", "F"]);
+    let show = |s: &str| format!("--- source (options -DD=1 -DZ=0 -DT=2)\n{}", s);
+    let (out, tr) = drv::compile_src_probe(src.as_bytes(), &["-O0", "-DD=1", "-DZ=0", "-DT=2", "-I", incdir], &["M", "F"]);
     if let Some(el) = expect_error_line {
         // the history ends in an active #error: Err with that line, nothing else
         return match out {
